@@ -3,16 +3,20 @@ import json, random, signal
 from fractions import Fraction
 
 from ..gen import points as G
+from .c11_translate import translate  # noqa: F401  (translated fragments: query write sets and single-form guards)
 
 PID = "C11"
 TITLE = "k-d tree queries are exact and construction always terminates"
-LEAN_MODULES = ["Mouette.Props.C11", "Mouette.Props.C11F"]
+LEAN_MODULES = ["Mouette.Props.C11", "Mouette.Props.C11F", "Mouette.Props.C11G"]
 REQUIRED_THEOREMS = ["build_terminates", "buildRoot_terminates", "build_partition", "buildRoot_partition", "build_boxes",
                      "buildRoot_boxes", "radius_exact", "knn_exact", "knn_distances_k_smallest", "kdtree_correct",
                      "buildOriginal_diverges", "knnOriginal_wrong",
                      # flat model = the code's data structures (Props/C11F.lean)
                      "buildBFSRoot_terminates", "buildBFSRoot_refines", "buildBFSRoot_ids", "buildBFSRoot_leaves",
-                     "buildBFS_partition", "knnFlat_refines", "knnFlat_exact", "radiusFlat_refines", "radiusFlat_exact"]
+                     "buildBFS_partition", "knnFlat_refines", "knnFlat_exact", "radiusFlat_refines", "radiusFlat_exact",
+                     # bridges Generated (translated from the current kdtree.py) = model (Props/C11G.lean)
+                     "gen_queries_read_only", "gen_radiusPrune", "gen_radiusKeep", "gen_trimGuard", "gen_heldGuard",
+                     "furthest_eq_gen", "gen_fallbackGuard"]
 TRUSTED = [
     "Lean 4.33.0 kernel; axioms ⊆ {propext, Classical.choice, Quot.sound}",
     "hand-written model Mouette/Model/KDTree.lean + AABB.lean tied to mouette/spatial/kdtree.py, geometry/aabb.py by the correspondence of this run "
@@ -28,7 +32,10 @@ ASSUMPTIONS = ["agreement model/implementation is established on the cases explo
 RULE = ("point sets of dimension 1..5 (uniform, integer lattice, clustered, collinear, duplicated, axis-degenerate, all identical, "
         "two-valued with majority maximum), n 0..60 (quick) / ..400 (thorough), leaf sizes 1..12, strategies balanced/fast/random with "
         "numpy.random.choice patched to recorded choices (seeded, always-max, always-min); construction under a split-count + wall-clock "
-        "watchdog; 3-6 queries per tree (on data points, near, far outside), k in 1..n+2 (biased to k close to n), radii 0 / exact rational "
+        "watchdog; the caller's points as float64 / int64 / float32 / nested lists / int lists / Fortran order / non-contiguous view / "
+        "read-only array and the query point as ndarray / list / tuple / int array / Vec / float32 (same values); the queries of a case "
+        "form a HISTORY on one tree (tree, caller array and query object snapshotted by value around every call; second pass in "
+        "reverse order; pass after the caller overwrote its array); k = 0 accepted as empty answer or rejection; 3-6 queries per tree (on data points, near, far outside), k in 1..n+2 (biased to k close to n), radii 0 / exact rational "
         "point distances / dyadic; non-trivial = distinct case whose tree has >= 1 split and with a query returning >= 1 neighbour")
 
 _WALL = 6.0
@@ -67,6 +74,86 @@ def _fake_choice(case):
 _cache = {"key": None, "val": None}
 
 
+POINT_REPS = ["float64", "int", "float32", "list", "intlist", "fortran", "view", "readonly"]
+QUERY_REPS = ["ndarray", "list", "tuple", "int", "vec", "float32"]
+
+
+def _integral(rows):
+    return all(Fraction(c).denominator == 1 for r in rows for c in r)
+
+
+def _f32_exact(rows):
+    return all(Fraction(c).denominator in (1, 2, 4, 8) and abs(Fraction(c)) <= 64 for r in rows for c in r)
+
+
+def _eff_rep(case):
+    rep = case.get("rep", "float64")
+    if len(case["pts"]) == 0: return "float64"
+    if rep in ("int", "intlist") and not _integral(case["pts"]): return "float64"
+    if rep == "float32" and not _f32_exact(case["pts"]): return "float64"
+    return rep
+
+
+def _points_obj(case):
+    """the object the caller passes to KDTree(...), in the representation the case asks for (same VALUES in every
+    representation; a representation that cannot hold the values exactly falls back to float64)"""
+    import numpy as np
+    n, d = len(case["pts"]), case["dim"]
+    rep = case.get("rep", "float64")
+    P = np.array([[float(Fraction(c)) for c in p] for p in case["pts"]], dtype=float).reshape((n, d))
+    if n == 0: return P, "float64"
+    if rep in ("int", "intlist") and not _integral(case["pts"]): rep = "float64"
+    if rep == "float32" and not _f32_exact(case["pts"]): rep = "float64"
+    if rep == "int": return P.astype(np.int64), rep
+    if rep == "float32": return P.astype(np.float32), rep
+    if rep == "list": return [[float(x) for x in r] for r in P], rep
+    if rep == "intlist": return [[int(x) for x in r] for r in P], rep
+    if rep == "fortran": return np.asfortranarray(P), rep
+    if rep == "view":
+        big = np.full((n, 2 * d), 12345.0); big[:, ::2] = P
+        return big[:, ::2], rep
+    if rep == "readonly":
+        P.setflags(write=False); return P, rep
+    return P, "float64"
+
+
+def _query_obj(qu, dim):
+    import numpy as np
+    from mouette.geometry import Vec
+    vals = [float(Fraction(c)) for c in qu["q"]]
+    rep = qu.get("qrep", "ndarray")
+    if rep == "int" and not _integral([qu["q"]]): rep = "ndarray"
+    if rep == "float32" and not _f32_exact([qu["q"]]): rep = "ndarray"
+    if rep == "list": return list(vals)
+    if rep == "tuple": return tuple(vals)
+    if rep == "int": return np.array([int(v) for v in vals], dtype=np.int64)
+    if rep == "vec": return Vec(np.array(vals))
+    if rep == "float32": return np.array(vals, dtype=np.float32)
+    return np.array(vals)
+
+
+def _snap(obj):
+    """value snapshot of a caller object (ndarray / nested list / tuple)"""
+    import numpy as np
+    if isinstance(obj, np.ndarray):
+        return ("nd", obj.shape, str(obj.dtype), np.ascontiguousarray(obj).tobytes())
+    return ("py", repr(obj))
+
+
+def _tree_snap(tree):
+    """value snapshot of everything a query could change: the node list and the stored points"""
+    import numpy as np
+    from mouette.spatial import KDTree
+    out = [_snap(np.asarray(tree.points))]
+    for nd in tree.nodes:
+        bb = (np.asarray(nd.bb.mini, dtype=float).tobytes(), np.asarray(nd.bb.maxi, dtype=float).tobytes())
+        if isinstance(nd, KDTree.Leaf):
+            out.append(("L", int(nd.id), np.asarray(nd.points).tobytes(), bb))
+        else:
+            out.append(("N", int(nd.id), int(nd.split_axis), float(nd.split_value), int(nd.left), int(nd.right), bb))
+    return out
+
+
 def _build(case):
     """Run KDTree(...) on the real code under the watchdog. Returns dict(status, tree, detail)."""
     key = json.dumps(case, sort_keys=True)
@@ -75,7 +162,8 @@ def _build(case):
     import numpy as np
     from mouette.spatial import KDTree
     n, d = len(case["pts"]), case["dim"]
-    P = np.array([[float(Fraction(c)) for c in p] for p in case["pts"]], dtype=float).reshape((n, d))
+    P, used_rep = _points_obj(case)
+    p_before = _snap(P)
     bound = 64 * (n + 1) * d + 1000
     cnt = {"n": 0}
     orig_split = getattr(KDTree, "_split_points", None)
@@ -96,7 +184,7 @@ def _build(case):
 
     def on_alarm(*a):
         raise _NonTermination(f"construction still running after {_WALL}s ({cnt['n']} splits so far)")
-    res = {"status": "ok", "tree": None, "detail": "", "P": P, "pivots": pivots}
+    res = {"status": "ok", "tree": None, "detail": "", "P": P, "pivots": pivots, "rep": used_rep, "effects": []}
     old = signal.signal(signal.SIGALRM, on_alarm)
     try:
         np.random.choice = _fake_choice(case)
@@ -122,6 +210,8 @@ def _build(case):
         if orig_pivot is not None:
             KDTree._find_pivot = orig_pivot
         signal.signal(signal.SIGALRM, old)
+    if _snap(P) != p_before:
+        res["effects"].append(("C11/effect/mutates/points/build", "KDTree(points) changed the caller's point object"))
     _cache["key"], _cache["val"] = key, res
     return res
 
@@ -162,22 +252,66 @@ def _invariants(case, tree):
     return part, box, size
 
 
+def _one_query(tree, qu, dim, effects, tag):
+    """one k-NN + one radius query through the monitor: the query point object and the tree must be left as found"""
+    qobj = _query_obj(qu, dim)
+    q_before = _snap(qobj)
+    t_before = _tree_snap(tree)
+    try:
+        nn = [int(i) for i in tree.query(qobj, qu["k"])]
+    except Exception as e:  # noqa
+        nn = f"err:Other({type(e).__name__})"
+    if qu["k"] == 0 and (isinstance(nn, str) or nn == []):
+        nn = []       # k = 0 is outside the statement (k >= 1): an empty answer and a rejection are both accepted
+    if _tree_snap(tree) != t_before:
+        effects.append(("C11/history/query-changes-tree/query", f"query() changed the tree ({tag})"))
+        t_before = _tree_snap(tree)
+    try:
+        rad = [int(i) for i in tree.query_radius(qobj, float(Fraction(qu["r"])))]
+    except Exception as e:  # noqa
+        rad = f"err:Other({type(e).__name__})"
+    if _tree_snap(tree) != t_before:
+        effects.append(("C11/history/query-changes-tree/query_radius", f"query_radius() changed the tree ({tag})"))
+    if _snap(qobj) != q_before:
+        effects.append(("C11/effect/mutates/query-point", f"a query changed the caller's query point object ({tag})"))
+    return nn, rad
+
+
 def _queries(case, b):
-    """run every query; returns list of (knn indices | err, radius indices | err)"""
+    """Runs every query in sequence on the ONE tree (a history), then - according to case['hist'] - once more in reverse
+    order, and once more after the caller changed the point object given to the constructor.  Returns the first-pass
+    answers [(knn | err, radius | err)]; differences between passes and side effects go to b['effects']."""
+    if "answers" in b:
+        return b["answers"]
     import numpy as np
-    out = []
-    for qu in case["queries"]:
-        q = np.array([float(Fraction(c)) for c in qu["q"]])
-        try:
-            nn = [int(i) for i in b["tree"].query(q, qu["k"])]
-        except Exception as e:  # noqa
-            nn = f"err:Other({type(e).__name__})"
-        try:
-            rad = [int(i) for i in b["tree"].query_radius(q, float(Fraction(qu["r"])))]
-        except Exception as e:  # noqa
-            rad = f"err:Other({type(e).__name__})"
-        out.append((nn, rad))
-    return out
+    tree, dim, eff = b["tree"], case["dim"], b["effects"]
+    p_snap = _snap(b["P"])
+    first = [_one_query(tree, qu, dim, eff, f"query {j}") for j, qu in enumerate(case["queries"])]
+    hist = case.get("hist", "")
+    if "repeat" in hist:
+        again = [_one_query(tree, qu, dim, eff, f"query {j}, second pass") for j, qu in reversed(list(enumerate(case["queries"])))][::-1]
+        for j, (a, c) in enumerate(zip(first, again)):
+            if a[0] != c[0] or (isinstance(a[1], list) and isinstance(c[1], list) and sorted(a[1]) != sorted(c[1])) or (isinstance(a[1], str) != isinstance(c[1], str)):
+                eff.append(("C11/history/repeat-differs", f"query {j} answers differently the second time on the same tree: {str(a)[:120]} then {str(c)[:120]}"))
+                break
+    if _snap(b["P"]) != p_snap:
+        eff.append(("C11/effect/mutates/points/query", "a query changed the caller's point object"))
+    if "mutate" in hist and len(case["pts"]) > 0 and b["rep"] != "readonly":
+        P = b["P"]
+        # the caller reuses / overwrites its array after the build
+        if isinstance(P, np.ndarray):
+            P[...] = P[::-1].copy() + 1000
+        else:
+            for r in P:
+                for a in range(len(r)): r[a] = r[a] + 1000
+        after = [_one_query(tree, qu, dim, eff, f"query {j}, after the caller changed its array") for j, qu in enumerate(case["queries"])]
+        for j, (a, c) in enumerate(zip(first, after)):
+            if a[0] != c[0] or (isinstance(a[1], list) and isinstance(c[1], list) and sorted(a[1]) != sorted(c[1])) or (isinstance(a[1], str) != isinstance(c[1], str)):
+                eff.append(("C11/history/caller-array-change-alters-answers",
+                            f"query {j} answers differently after the caller modified the array it had passed to KDTree(): {str(a)[:120]} then {str(c)[:120]}"))
+                break
+    b["answers"] = first
+    return first
 
 
 def impl_observe(case):
@@ -307,11 +441,17 @@ def oracle(case):
         out.append({"key": "C11/leaves/box", "what": "a stored point lies outside the bounding box of its leaf", "detail": ""})
     if not size:
         out.append({"key": "C11/leaves/size", "what": "a leaf holds more than max_leaf_size points", "detail": ""})
-    for j, (qu, (nn, rad)) in enumerate(zip(case["queries"], _queries(case, b))):
+    answers = _queries(case, b)
+    seen_eff = set()
+    for key, detail in b["effects"]:
+        if key not in seen_eff:
+            seen_eff.add(key)
+            out.append({"key": key, "what": detail.split(" (")[0], "detail": detail + f" [points as {b['rep']}]"})
+    for j, (qu, (nn, rad)) in enumerate(zip(case["queries"], answers)):
         all_d = [G.sq_dist(p, qu["q"]) for p in case["pts"]]
         k = qu["k"]
         if isinstance(nn, str):
-            out.append({"key": f"C11/knn/raises/{nn}", "what": "query raised " + nn, "detail": f"query {j}"})
+            out.append({"key": f"C11/knn/raises/{nn}", "what": "query raised " + nn, "detail": f"query {j} (points as {b['rep']}, query point as {qu.get('qrep', 'ndarray')})"})
         else:
             if any(not (0 <= i < n) for i in nn) or len(set(nn)) != len(nn):
                 out.append({"key": "C11/knn/indices", "what": "k-NN answer holds invalid or repeated indices", "detail": f"query {j}: {nn}"})
@@ -326,7 +466,7 @@ def oracle(case):
                     out.append({"key": "C11/knn/not-nearest", "what": "k-NN answer distances are not the smallest distances to the query point",
                                 "detail": f"query {j}: k={k} n={n} got {[G.fs(x) for x in sorted(ds)][:8]} want {[G.fs(x) for x in sorted(all_d)[:len(ds)]][:8]}"})
         if isinstance(rad, str):
-            out.append({"key": f"C11/radius/raises/{rad}", "what": "query_radius raised " + rad, "detail": f"query {j}"})
+            out.append({"key": f"C11/radius/raises/{rad}", "what": "query_radius raised " + rad, "detail": f"query {j} (points as {b['rep']}, query point as {qu.get('qrep', 'ndarray')})"})
         else:
             r2 = Fraction(qu["r"]) ** 2
             want = [i for i in range(n) if all_d[i] <= r2]
@@ -352,10 +492,13 @@ def classify(case, obs):
     ks = [f"dim:{case['dim']}", f"strategy:{case['strategy']}", f"choice:{case['choice']['mode']}", f"kind:{case['kind']}",
           "n:" + ("0" if n == 0 else "1-10" if n <= 10 else "11-60" if n <= 60 else "61-150" if n <= 150 else ">150"),
           "leaf:" + ("1" if case["leaf"] == 1 else "2-4" if case["leaf"] <= 4 else ">4"),
-          "build:" + obs.split(" ")[0], "splits:" + ("yes" if n > case["leaf"] else "no")]
+          "build:" + obs.split(" ")[0], "splits:" + ("yes" if n > case["leaf"] else "no"),
+          "points-as:" + _eff_rep(case), "history:" + (case.get("hist") or "single-pass"),
+          "queries-on-one-tree:" + str(len(case["queries"]))]
     for qu in case["queries"]:
         k = qu["k"]
-        ks.append("k:" + ("1" if k == 1 else ">n" if k > n else "=n" if k == n else "n-3..n-1" if k >= n - 3 else "<n-3"))
+        ks.append("query-point-as:" + qu.get("qrep", "ndarray"))
+        ks.append("k:" + ("0" if k == 0 else "1" if k == 1 else ">n" if k > n else "=n" if k == n else "n-3..n-1" if k >= n - 3 else "<n-3"))
         r = Fraction(qu["r"])
         tie = any(G.sq_dist(p, qu["q"]) == r * r for p in case["pts"])
         ks.append("r:" + ("0" if r == 0 else "tie" if tie else "generic"))
@@ -380,9 +523,26 @@ def _mk_case(rng, kind, n, dim, leaf, strategy, mode, nq):
         elif r < 0.6: k = n + rng.randint(1, 2)
         elif r < 0.7: k = 1
         else: k = rng.randint(1, max(1, n))
+        if rng.random() < 0.03: k = 0
         qs.append({"q": q, "k": k, "r": G.radius_for(rng, pts, q)})
-    return {"kind": kind, "dim": dim, "leaf": leaf, "strategy": strategy,
+    case = {"kind": kind, "dim": dim, "leaf": leaf, "strategy": strategy,
             "choice": {"mode": mode, "seed": rng.randint(0, 10 ** 6)}, "pts": pts, "queries": qs}
+    # representation of the inputs (same values) and history on the one tree
+    r = rng.random()
+    if r < 0.45:
+        if rng.random() < 0.5 and not _integral(pts) and len(pts) <= 80:
+            # make the values integral so that the integer representations apply (keeps duplicates / degeneracies)
+            case["pts"] = [[G.fs(round(Fraction(c))) for c in p] for p in pts]
+            case["queries"] = [dict(qu, q=[G.fs(round(Fraction(c))) for c in qu["q"]] if rng.random() < 0.7 else qu["q"],
+                                    r=qu["r"]) for qu in qs]
+        case["rep"] = rng.choice(POINT_REPS[1:])
+    if rng.random() < 0.5:
+        case["queries"] = [dict(qu, qrep=rng.choice(QUERY_REPS)) for qu in case["queries"]]
+    h = rng.random()
+    if h < 0.25: case["hist"] = "repeat"
+    elif h < 0.4: case["hist"] = "mutate"
+    elif h < 0.5: case["hist"] = "repeat+mutate"
+    return case
 
 
 def cases(rng, tier):
